@@ -181,6 +181,11 @@ func execRun(t *testing.T, p *Property, ch *Chooser, tier string, quiet bool) ru
 			if x := recover(); x != nil {
 				msg := fmt.Sprint(x)
 				if strings.Contains(msg, "deadlock") {
+					if os.Getenv("VERIF_DEBUG_STACKS") != "" {
+						buf := make([]byte, 1<<20)
+						n := runtime.Stack(buf, true)
+						msg += "\n" + string(buf[:n])
+					}
 					if p.DeadlockClass != "" {
 						r.Report(p.DeadlockClass, "bubble-deadlock", "all goroutines of the simulated process are blocked and no timer is pending: %s", msg)
 					} else {
